@@ -456,6 +456,51 @@ def r9_sub_templates(ctx, rep):
     common.sub_template_escaped(ctx, rep, modules=("sourceform", "reader", "utils"))
 
 
+def r10_blanked_copy_keeps_columns(ctx, rep):
+    """While a literal continued from the previous line is open, the comment patterns are matched against a copy of the line in
+    which the rest of the literal is blanked out, and the positions of that match are used to cut the *real* line.  That only
+    works if the copy has the columns of the line: every value the blanking helper returns has the length of its argument.
+    Decided symbolically (lengths of `c * n`, `a + b`, `line[a:b]` as linear forms)."""
+    py = ctx.py
+    md = py.func("reader._match_docmark")
+    line_p = md.args.args[1].arg
+    helpers = {}
+    for c in py.walk_calls(md):
+        nm = call_name(c).split(".")[-1]
+        if py.has_func(f"reader.{nm}") and c.args and ast.unparse(c.args[0]) == line_p:
+            helpers[nm] = py.func(f"reader.{nm}")
+    matched = [c for c in py.walk_calls(md) if isinstance(c.func, ast.Attribute) and c.func.attr in ("match", "search", "fullmatch")]
+    if not matched:
+        raise AnalysisError("_match_docmark: no pattern match found")
+    if not helpers:
+        # the line is matched as it is (no blanked copy): nothing to keep aligned
+        rep.ob("comment patterns are matched on text that has the columns of the line", True,
+               "the line itself is matched", py.nloc(md), nontrivial=False)
+        return
+    for nm, fn in sorted(helpers.items()):
+        subject = fn.args.args[0].arg
+        rets = [r for r in astq.returns(fn)]
+        if not rets:
+            raise AnalysisError(f"{nm}: no return value")
+        for r in rets:
+            ln = astq.str_length(r, subject)
+            if ln is None and isinstance(r, ast.Name):
+                vals = [v for _t, v in astq.assignments(fn, r.id) if v is not None]
+                lns = [astq.str_length(v, subject) for v in vals]
+                ln = lns[0] if lns and all(x == lns[0] for x in lns) else None
+            if ln is None:
+                raise AnalysisError(f"{nm}: the length of `{ast.unparse(r)[:60]}` is not understood")
+            want = {f"len({subject})": 1, "": 0}
+            got = dict(ln)
+            got.setdefault("", 0)
+            ok = got == want
+            rep.ob(f"{nm}: `{ast.unparse(r)[:50]}` has the length of the line", ok,
+                   "columns of the blanked copy are the columns of the line" if ok else
+                   f"the blanked copy is len({subject}) {'+' if got.get('', 0) - (0) >= 0 else ''}... = {got} characters long: every "
+                   f"position taken from a match on it is off, so cutting a trailing comment removes a character of code (or leaves "
+                   f"one of the comment)", py.nloc(r))
+
+
 RULES = [
     RuleSpec("C02.R6", r6_masking_cursor, "masking loops advance past the placeholder (shared with C20.R4)", floor=2),
     RuleSpec("C02.R1", r1_comment_recogniser, "comment recogniser == Fortran comment rule", floor=6),
@@ -465,5 +510,6 @@ RULES = [
     RuleSpec("C02.R5", r5_continuation, "continuation joining removes exactly the & characters", floor=3),
     RuleSpec("C02.R8", r8_include_lines, "INCLUDE lines are recognised by keyword plus literal", floor=2),
     RuleSpec("C02.R7", r7_no_transform_after_restore, "no rewriting after literals are re-inserted (shared with C18.R2)", floor=2),
+    RuleSpec("C02.R10", r10_blanked_copy_keeps_columns, "the blanked copy of a line inside an open literal keeps the line's columns", floor=1),
     RuleSpec("C02.R9", r9_sub_templates, "source text used as a regex replacement template has its backslashes doubled", floor=5),
 ]
